@@ -232,9 +232,23 @@ func (r *c03Run) do(n int, step bson.D) error {
 		}
 		return r.checkVisible("start transaction")
 	case "sess.op":
+		var before int64 = -1
+		if s, ok := r.sessions[k].(*lungo.Session); ok && r.open == k && s.Transaction() != nil {
+			before = totalDocs(s.Transaction().Catalog())
+		}
 		res, err := r.inSession(k, inner)
 		if err != nil {
 			return err
+		}
+		// conservation, independent of the shadow engine: the transaction
+		// holds as many more (fewer) documents as the call reports inserted,
+		// upserted (deleted)
+		if s, ok := r.sessions[k].(*lungo.Session); ok && before >= 0 && r.open == k && s.Transaction() != nil {
+			if d, known := expectedDocDelta(asS(getD(inner, "op")), res); known {
+				if after := totalDocs(s.Transaction().Catalog()); after-before != d {
+					return fmt.Errorf("inside the transaction %s returned %s but the transaction now holds %+d documents (it reports %+d)", show(inner), show(res), after-before, d)
+				}
+			}
 		}
 		if r.open == k {
 			res3, err := r.e3.execStep(inner)
@@ -257,8 +271,12 @@ func (r *c03Run) do(n int, step bson.D) error {
 				}
 			} else if !equalUpToFieldOrder(normResult(res), normResult(res3)) {
 				return fmt.Errorf("inside the transaction %s returned %s; with read-your-writes it returns %s", show(inner), show(res), show(res3))
-			} else if isWriteOp(op) && asS(getD(res, "err")) == "" && effective(res) {
-				r.txnWrites++
+			} else if isWriteOp(op) {
+				if asS(getD(res, "err")) == "" && effective(res) {
+					r.txnWrites++
+				}
+				// every write call is replayed when the shadow is rebuilt (a
+				// failing unordered batch may have applied some of its items)
 				r.txnLog = append(r.txnLog, inner)
 			}
 			// the session sees its own writes
@@ -369,6 +387,16 @@ func (r *c03Run) do(n int, step bson.D) error {
 					if err != nil {
 						inErr = err
 						return nil, err
+					}
+					switch asS(getD(asD(s), "op")) {
+					case "createIndex", "createIndexes", "dropIndex", "dropIndexKey", "dropIndexes", "createColl", "dropColl", "dropDB":
+						// catalog calls are rejected inside the transaction
+						// and leave it alone
+						if asS(getD(res, "err")) == "" {
+							inErr = fmt.Errorf("%s inside WithTransaction succeeded", show(s))
+							return nil, inErr
+						}
+						continue
 					}
 					res3, err := e3.execStep(asD(s))
 					if err != nil {
@@ -502,7 +530,10 @@ var profTxn = &hProfile{name: "txn", cfg: gen.Core, weights: writeWeights(map[st
 var profTxnIn = &hProfile{name: "txn-in", cfg: gen.Core, weights: map[string]int{
 	"insertOne": 10, "insertMany": 5, "updateOne": 6, "updateMany": 8, "updateByID": 2, "replaceOne": 5, "deleteOne": 3, "deleteMany": 2,
 	"findOneAndDelete": 2, "findOneAndReplace": 2, "findOneAndUpdate": 3, "bulkWrite": 5, "find": 6, "findOne": 2, "count": 2, "distinct": 1, "listIndexes": 1,
-}, nss: []string{"d1.c1", "d1.c1", "d1.c2"}, docGen: defaultDocGen, idPool: simpleIDs, tinyVals: collideVals}
+	// catalog calls open a write transaction of their own: inside a session
+	// transaction they are rejected and leave it alone
+	"createIndex": 1, "createColl": 1, "dropColl": 1, "dropIndex": 1,
+}, nss: []string{"d1.c1", "d1.c1", "d1.c2"}, docGen: defaultDocGen, idPool: simpleIDs, tinyVals: collideVals, delOnly: 40}
 
 func genC03Step(t *rapid.T, r *c03Run) bson.D {
 	view := (&hRun{env: r.main}).view()
